@@ -191,9 +191,25 @@ def expressible(c):
     return all(not (g.gate_type in circgen.CONST and g.operands) for g in c.gates.values())
 
 
-def roundtrip_check(p, name, c):
-    p.case(("roundtrip", circ.snapshot(c)[:3]), sample=f"round trip {name}: {circ.describe(c)}" if len(p.samples) < 8 else None)
-    src = REPLAY_PRELUDE + "from cirbo.core.circuit import Circuit\nimport tempfile, os\n" + circ.circ_src(c) + "\n"
+REJECTED_SRC = """
+def rejected_parse_first(c):
+    # a text that is rejected in the middle (after declarations and some gates were read); the caller catches the error
+    from cirbo.core.circuit import Circuit
+    lines = c.format_circuit().splitlines()
+    bad = lines[: max(1, len(lines) // 2)] + ['poison_gate = FROBNICATE(' + (list(c.gates)[0] if c.gates else 'q') + ')'] + lines[len(lines) // 2:]
+    try:
+        Circuit.from_bench_string('\\n'.join(bad) + '\\n')
+    except Exception:
+        pass
+"""
+exec(REJECTED_SRC)  # noqa: S102
+
+
+def roundtrip_check(p, name, c, after_rejected=False):
+    p.case(("roundtrip", circ.snapshot(c)[:3], after_rejected), sample=f"round trip {name}: {circ.describe(c)}" if len(p.samples) < 8 else None)
+    src = REPLAY_PRELUDE + "from cirbo.core.circuit import Circuit\nimport tempfile, os\n" + circ.circ_src(c) + "\n" + (REJECTED_SRC + "rejected_parse_first(c)\n" if after_rejected else "")
+    if after_rejected:
+        rejected_parse_first(c)  # noqa: F821
     body = ("bad=[]\ntry:\n    d=Circuit.from_bench_string(c.format_circuit())\n"
             "    if not (d==c) or circ.netlist_of(d)!=circ.netlist_of(c) or list(d.inputs)!=list(c.inputs) or list(d.outputs)!=list(c.outputs): bad.append('string round trip differs')\n"
             "    with tempfile.TemporaryDirectory() as t:\n        f=os.path.join(t,'sub','c.bench'); c.save_to_file(f); e=Circuit.from_bench_file(f)\n"
@@ -217,7 +233,8 @@ def roundtrip_check(p, name, c):
         bad = f"{type(ex).__name__}: {ex}"
     if bad:
         kw = [l for l in c.gates if l.upper().startswith(("INPUT", "OUTPUT")) and c.gates[l].gate_type != G.INPUT]
-        p.violation(f"roundtrip:{'keyword-prefixed-label' if kw else bad.split(' ')[0].split(':')[0]}", f"{circ.describe(c)}: {bad}", src + body)
+        p.violation(f"roundtrip:{'keyword-prefixed-label' if kw else bad.split(' ')[0].split(':')[0]}{':after-a-rejected-parse' if after_rejected else ''}",
+                    f"{circ.describe(c)}{' (parsed right after a text that was rejected mid-stream)' if after_rejected else ''}: {bad}", src + body)
 
 
 def layouts(c, rnd, count):
@@ -335,6 +352,7 @@ def family_unit(p, item, tier, seed):
             same_path_check(p, name, prev, c)
         prev = c
         roundtrip_check(p, name, c)
+        roundtrip_check(p, name, c, after_rejected=True)
         rc = relabel(c, rnd)
         roundtrip_check(p, name + "/relabelled", rc)
         denotation_check(p, name, c if rnd.random() < 0.5 else rc, rnd, 3 if tier == "quick" else 6)
